@@ -14,6 +14,7 @@ package main
 import (
 	"encoding/base64"
 	"fmt"
+	"net/http"
 	"strings"
 
 	req "github.com/imroc/req/v3"
@@ -203,5 +204,166 @@ func runRequestDump(r *hk.Run, e *env, rng *hk.Rand, n int) {
 		}
 	}
 	r.Count("requestdump.each-request")
+	e.reset()
+}
+
+// connect-rotation (round 7): https requests tunnelled through an http proxy (CONNECT) with the client-level option
+// ProxyConnectHeader set or nil; the proxy URL (credentials) is changed and the client is cloned between tunnels.
+// The origin, acting as the proxy, records every CONNECT and refuses the tunnel (the request fails - only the CONNECT
+// matters). Every CONNECT must carry the credentials of the proxy URL in force and the configured header; the
+// option read back must never contain Proxy-Authorization.
+func runConnectRotation(r *hk.Run, e *env, rng *hk.Rand, n int) {
+	users := []string{"", "u1", "u2"}
+	pws := []string{"", "pa", "pb", "pc"}
+	type cst struct{ u, p, hdr int }
+	for i := 0; i < n; i++ {
+		e.reset()
+		clients := map[int]*req.Client{0: e.newClient()}
+		ref := map[int]cst{0: {}}
+		clients[0].SetProxyURL("http://px1.test:3128")
+		var prog, coq []string
+		failed := false
+		steps := rng.Range(4, 9)
+		for s := 0; s < steps && !failed; s++ {
+			id := 0
+			if clients[1] != nil && rng.Chance(40) {
+				id = 1
+			}
+			switch k := rng.Intn(10); {
+			case k < 3:
+				cur := ref[id]
+				cur.u, cur.p = rng.Range(0, 2), rng.Range(1, 3)
+				ui := ""
+				if cur.u != 0 {
+					ui = users[cur.u] + ":" + pws[cur.p] + "@"
+				} else {
+					cur.p = 0
+				}
+				clients[id].SetProxyURL("http://" + ui + "px1.test:3128")
+				ref[id] = cur
+				prog = append(prog, fmt.Sprintf("c%d.SetProxyURL(user %d, password %d)", id, cur.u, cur.p))
+				coq = append(coq, fmt.Sprintf("CkSetProxy %d %d %d", id, cur.u, cur.p))
+			case k < 5:
+				cur := ref[id]
+				cur.hdr = rng.Range(0, 3)
+				if cur.hdr == 0 {
+					clients[id].GetTransport().SetProxyConnectHeader(nil)
+				} else {
+					clients[id].GetTransport().SetProxyConnectHeader(http.Header{"X-Pch": {valStr(cur.hdr)}})
+				}
+				ref[id] = cur
+				prog = append(prog, fmt.Sprintf("c%d.SetProxyConnectHeader(%d)", id, cur.hdr))
+				coq = append(coq, fmt.Sprintf("CkSetHeader %d %d", id, cur.hdr))
+			case k < 6 && clients[1] == nil:
+				clients[1] = clients[0].Clone()
+				ref[1] = ref[0]
+				prog = append(prog, "c1 := c0.Clone()")
+				coq = append(coq, "CkClone 0 1")
+			default:
+				e.lastConnect = nil
+				clients[id].R().Get("https://secure.c19.test/px") // fails: the proxy refuses the tunnel
+				prog = append(prog, fmt.Sprintf("c%d.Get(https)", id))
+				if e.lastConnect == nil {
+					failed = true
+					r.Fail(hk.Failure{Sig: "connect-rotation:no-connect", What: "the proxy saw no CONNECT", Input: map[string]interface{}{"program": append([]string(nil), prog...)}})
+					break
+				}
+				gu, gp := 0, 0
+				if pa := e.lastConnect.Get("Proxy-Authorization"); pa != "" {
+					gu, gp = 99, 99
+					if raw, derr := base64.StdEncoding.DecodeString(strings.TrimPrefix(pa, "Basic ")); derr == nil {
+						parts := strings.SplitN(string(raw), ":", 2)
+						for ui, u := range users {
+							if ui > 0 && len(parts) == 2 && parts[0] == u {
+								gu = ui
+							}
+						}
+						for pi, p := range pws {
+							if pi > 0 && len(parts) == 2 && parts[1] == p {
+								gp = pi
+							}
+						}
+					}
+				}
+				gh := valTok(e.lastConnect.Get("X-Pch"))
+				clean := true
+				if opt := clients[id].GetTransport().ProxyConnectHeader; opt != nil && opt.Get("Proxy-Authorization") != "" {
+					clean = false
+				}
+				coq = append(coq, fmt.Sprintf("CkReq %d %d %d %d %v", id, gu, gp, gh, clean))
+				want := ref[id]
+				if gu != want.u || gp != want.p || gh != want.hdr || !clean {
+					failed = true
+					sig := "connect-rotation:credentials-of-an-earlier-proxy"
+					if !clean {
+						sig = "connect-rotation:credentials-written-into-ProxyConnectHeader"
+					} else if gh != want.hdr {
+						sig = "connect-rotation:configured-header"
+					}
+					r.Fail(hk.Failure{Sig: sig, What: fmt.Sprintf("client %d: CONNECT carried (user %d, password %d, X-Pch %d), option free of Proxy-Authorization: %v; the client's settings are (user %d, password %d, X-Pch %d)", id, gu, gp, gh, clean, want.u, want.p, want.hdr),
+						Input: map[string]interface{}{"program": append([]string(nil), prog...)}, Got: []int{gu, gp, gh}, Want: []int{want.u, want.p, want.hdr}})
+				}
+				r.Count("connectrotation.connects")
+			}
+		}
+		r.Count("connectrotation.programs")
+		r.Add(hk.Case{Coq: "(CConnect [" + strings.Join(coq, "; ") + "])", Desc: map[string]interface{}{"kind": "connect-rotation", "program": prog}},
+			"connect:"+strings.Join(prog, ";"), strings.Count(strings.Join(prog, ";"), "Get(https)") >= 2)
+	}
+	e.reset()
+}
+
+// digest-form (round 7): client-level form data on a request that is challenged (401 Digest) and re-sent with the
+// authorization within ONE attempt - the body is set up a second time - and then executed again: the authorised
+// request must carry the request-level form values followed by the client's, once.
+func runDigestForm(r *hk.Run, e *env, rng *hk.Rand, n int) {
+	for i := 0; i < n; i++ {
+		e.reset()
+		c := e.newClient().SetCommonDigestAuth("u", "p")
+		rc, rq := newRefObj(), newRefObj()
+		var prog []string
+		for j, m := 0, rng.Range(1, 2); j < m; j++ {
+			s := setter{K: "mapset", F: 2, Key: rng.Range(1, 4), Val: rng.Range(1, 9)}
+			if rng.Chance(30) {
+				s.K = "mapadd"
+			}
+			e.clientSet(c, s, 0)
+			rc.apply(s)
+			prog = append(prog, "c: "+s.coq())
+		}
+		q := c.R()
+		if rng.Chance(50) {
+			s := setter{K: "mapset", F: 2, Key: rng.Range(1, 4), Val: rng.Range(1, 9)}
+			e.reqSet(q, s, 0)
+			rq.apply(s)
+			prog = append(prog, "q: "+s.coq())
+		}
+		for x := 1; x <= 2; x++ {
+			e.last = nil
+			resp, err := q.Post("/p/digest")
+			prog = append(prog, fmt.Sprintf("q.Post(/digest) #%d [401 Digest challenge, then 200]", x))
+			if err != nil || resp.StatusCode != 200 || e.last == nil {
+				r.Fail(hk.Failure{Sig: "digest-form:request-failed", What: fmt.Sprintf("challenged request did not end in 200: %v", err), Input: map[string]interface{}{"program": append([]string(nil), prog...)}})
+				break
+			}
+			m := map[int][]int{}
+			for ki, k := range formKeys {
+				if ki > 0 {
+					for _, v := range e.last.form[k] {
+						m[ki] = append(m[ki], valTok(v))
+					}
+				}
+			}
+			got := flatKV(m)
+			want := refDescribe(rc, rq)[2]
+			if !eqInts(got, want) {
+				r.Fail(hk.Failure{Sig: "digest-form:client-form-data-of-the-authorised-re-send", What: fmt.Sprintf("execution #%d: the form of the authorised re-send differs from request-level + client-level form data", x),
+					Input: map[string]interface{}{"program": append([]string(nil), prog...)}, Got: got, Want: want})
+				break
+			}
+			r.Count("digestform.executions")
+		}
+		r.Count("digestform.programs")
+	}
 	e.reset()
 }
